@@ -70,7 +70,8 @@ macro_rules! int_suite {
                 {
                     let bits = S::BITS as i128;
                     let mut counts: Vec<$C> = Vec::new();
-                    for c in [0i128, 1, 2, 3, bits / 2, bits - 1, bits, bits + 1, 2 * bits, 63, 64, 65, 127, 255, -1, -2, <$C>::MAX as i128, <$C>::MIN as i128] {
+                    // counts at and beyond the bit width, and counts whose low 8 / 16 / 32 bits are small (a truncating cast of the count would hide them)
+                    for c in [0i128, 1, 2, 3, bits / 2, bits - 1, bits, bits + 1, 2 * bits, 63, 64, 65, 127, 255, 256, 257, 256 + bits - 1, 65536, 65537, 65536 + bits - 1, 1 << 32, (1 << 32) + 1, (1 << 32) + bits - 1, 1 << 40, 1 << 63, -1, -2, -256, -65536, -(1 << 32), <$C>::MAX as i128, <$C>::MIN as i128] {
                         if <$C as Int>::fits(c) { counts.push(c as $C); }
                     }
                     counts.sort(); counts.dedup();
@@ -83,8 +84,8 @@ macro_rules! int_suite {
         shifts!(i8); shifts!(i16); shifts!(i32); shifts!(i64); shifts!(u8); shifts!(u16); shifts!(u32); shifts!(u64);
         {
             let bits = S::BITS as i32;
-            let ic: Vec<i32> = vec![0, 1, 2, bits / 2, bits - 1, bits, bits + 1, 2 * bits, 63, 64, -1, i32::MAX, i32::MIN];
-            let uc: Vec<u32> = vec![0, 1, 2, (bits / 2) as u32, (bits - 1) as u32, bits as u32, (bits + 1) as u32, (2 * bits) as u32, 63, 64, u32::MAX];
+            let ic: Vec<i32> = vec![0, 1, 2, bits / 2, bits - 1, bits, bits + 1, 2 * bits, 63, 64, 256, 257, 65536, 65537, -1, -256, -65536, i32::MAX, i32::MIN];
+            let uc: Vec<u32> = vec![0, 1, 2, (bits / 2) as u32, (bits - 1) as u32, bits as u32, (bits + 1) as u32, (2 * bits) as u32, 63, 64, 256, 257, 65536, 65537, u32::MAX];
             ibin::<S, i32, S, N>(mon, oc, ty, "shl<IVec>", IOpts::vv(r).rhs(&ic), &|a, b| Some((v(a) << <$IV>::from_array(b)).to_array()), &|x: S, c: i32| cu(|| x << c));
             ibin::<S, i32, S, N>(mon, oc, ty, "shr<IVec>", IOpts::vv(r).rhs(&ic), &|a, b| Some((v(a) >> <$IV>::from_array(b)).to_array()), &|x: S, c: i32| cu(|| x >> c));
             ibin::<S, u32, S, N>(mon, oc, ty, "shl<UVec>", IOpts::vv(r).rhs(&uc), &|a, b| Some((v(a) << <$UV>::from_array(b)).to_array()), &|x: S, c: u32| cu(|| x << c));
